@@ -281,6 +281,8 @@ pub fn replay(a: &[String]) -> i32 {
     let mut by_op: BTreeMap<String, u64> = BTreeMap::new();
     let mut by_type: BTreeMap<String, u64> = BTreeMap::new();
     let mut encs: BTreeMap<String, u64> = BTreeMap::new();
+    let mut agree_by: BTreeMap<String, u64> = BTreeMap::new();
+    let mut lens: BTreeMap<String, u64> = BTreeMap::new();
     let mut sliced = 0u64;
     let mut skipped_bool = 0u64;
     let mut samples = 0;
@@ -309,7 +311,9 @@ pub fn replay(a: &[String]) -> i32 {
                 let all = e.got == R::Ok(e.exp.clone()) && e.arrow == R::Ok(e.exp.clone());
                 if all {
                     agree += 1;
+                    *agree_by.entry(format!("{}/{}", e.op, ty)).or_default() += 1;
                 }
+                *lens.entry(c["len"].as_u64().unwrap().to_string()).or_default() += 1;
                 if !all || e.tydrift.is_some() || (samples < 12 && i % 97 == 5) {
                     let mut rec = json!({"i": i, "t": ty, "op": e.op, "got": e.got.json(), "arrow": e.arrow.json(), "exp": e.exp});
                     if let Some(n) = &e.enc {
@@ -330,7 +334,7 @@ pub fn replay(a: &[String]) -> i32 {
         }
     }
     out.put(&json!({"summary": 1, "cases": cases.len(), "evals": evals, "agree": agree, "by_op": by_op, "by_type": by_type,
-                    "encodings_chosen": encs, "evals_on_sliced_arrays": sliced, "bool_skipped_value2": skipped_bool}));
+                    "encodings_chosen": encs, "agree_by": agree_by, "evals_by_len": lens, "evals_on_sliced_arrays": sliced, "bool_skipped_value2": skipped_bool}));
     out.finish();
     0
 }
